@@ -47,6 +47,47 @@ fn handle(mut s: TcpStream, dir: PathBuf, requests: Arc<AtomicU64>) {
 			}
 		}
 		requests.fetch_add(1, Ordering::Relaxed);
+		// "hr/<mode>/<file>": the MISBEHAVING server of spec/HttpRange.tla (Answer): the same file, answered as the mode says
+		if let Some(rest) = path.strip_prefix("hr/") {
+			let (mode, fname) = rest.split_once('/').unwrap_or((rest, ""));
+			let data = std::fs::read(dir.join(fname)).unwrap_or_default();
+			let total = data.len() as i64;
+			let (off, last) = range.map(|(a, b)| (a as i64, b as i64)).unwrap_or((0, total - 1));
+			let len = last - off + 1;
+			let slice = |o: i64, l: i64| -> Vec<u8> { (o.max(0)..(o + l).min(total)).map(|i| data[i as usize]).collect() };
+			let (status, cr, body): (u16, Option<String>, Vec<u8>) = match mode {
+				"exact" => (206, Some(format!("bytes {off}-{last}/{total}")), slice(off, len)),
+				"full200" => (200, None, data.clone()),
+				"shifted" => {
+					let o2 = if off + len < total { off + 1 } else { off - 1 };
+					(206, Some(format!("bytes {o2}-{}/{total}", o2 + len - 1)), slice(o2, len))
+				}
+				"wider" => (206, Some(format!("bytes {off}-{}/{total}", total - 1)), slice(off, total - off)),
+				"short_body" => (206, Some(format!("bytes {off}-{last}/{total}")), slice(off, len - 1)),
+				"long_body" => {
+					let mut b = slice(off, len);
+					b.push(0);
+					(206, Some(format!("bytes {off}-{last}/{total}")), b)
+				}
+				"status416" => (416, None, vec![]),
+				"status500" => (500, None, slice(off, len)),
+				"no_content_range" => (206, None, slice(off, len)),
+				"bad_content_range" => (206, Some("octets here and there".to_string()), slice(off, len)),
+				_ => (206, Some(format!("bytes {off}-{}/{total}", last + 1)), slice(off, len)), // wrong_end
+			};
+			let reason = match status { 200 => "OK", 206 => "Partial Content", 416 => "Range Not Satisfiable", _ => "Internal Server Error" };
+			let mut r = format!("HTTP/1.1 {status} {reason}\r\nContent-Length: {}\r\n", body.len());
+			if let Some(c) = cr {
+				r.push_str(&format!("Content-Range: {c}\r\n"));
+			}
+			r.push_str("\r\n");
+			let mut resp = r.into_bytes();
+			resp.extend(body);
+			if s.write_all(&resp).is_err() {
+				return;
+			}
+			continue;
+		}
 		let file = dir.join(&path);
 		let resp: Vec<u8> = match (std::fs::File::open(&file), path.contains("..")) {
 			(Ok(mut f), false) => {
@@ -79,6 +120,43 @@ fn handle(mut s: TcpStream, dir: PathBuf, requests: Arc<AtomicU64>) {
 			return;
 		}
 	}
+}
+
+/// HTTPRANGE replay: every case of MC_HttpRange against the real DataReaderHttp; the outcome is logged, TLC judges
+pub fn replay(input: &str, output: &str, dir: &str) -> serde_json::Value {
+	use crate::util::*;
+	use serde_json::json;
+	use versatiles_core::io::{DataReaderHttp, DataReaderTrait};
+	use versatiles_core::types::ByteRange;
+	let cases = read_ndjson(input);
+	let mut out = Out::create(output);
+	let d = std::path::Path::new(dir);
+	std::fs::create_dir_all(d).unwrap();
+	let rt = tokio::runtime::Builder::new_multi_thread().worker_threads(2).enable_all().build().unwrap();
+	let srv = RangeServer::start(d);
+	for c in &cases {
+		let total = c["total"].as_u64().unwrap();
+		let fname = format!("hr_{total}.bin");
+		if !d.join(&fname).exists() {
+			std::fs::write(d.join(&fname), (0..total).map(|i| ((i * 7 + 3) % 251) as u8).collect::<Vec<u8>>()).unwrap();
+		}
+		let (mode, off, len) = (c["mode"].as_str().unwrap(), c["off"].as_u64().unwrap(), c["len"].as_u64().unwrap());
+		let url = format!("http://127.0.0.1:{}/hr/{mode}/{fname}", srv.port);
+		let res = catch(|| {
+			rt.block_on(async {
+				let r = DataReaderHttp::from_url(reqwest::Url::parse(&url).unwrap())?;
+				tokio::time::timeout(std::time::Duration::from_secs(20), r.read_range(&ByteRange::new(off, len))).await.map_err(|_| anyhow::anyhow!("timeout"))?
+			})
+		});
+		let (ok, bytes, err): (i64, Vec<u8>, String) = match res {
+			Ok(Ok(b)) => (1, b.as_slice().to_vec(), String::new()),
+			Ok(Err(e)) => (0, vec![], format!("{e:#}").chars().take(160).collect()),
+			Err(p) => (-1, vec![], p.chars().take(160).collect()),
+		};
+		out.emit(&json!({"ev":"httprange","mode":mode,"off":off,"len":len,"total":total,"ok":ok,"bytes":bytes,"err":err}));
+	}
+	let lines = out.finish();
+	json!({"cases": cases.len(), "events": lines})
 }
 
 impl RangeServer {
